@@ -18,6 +18,7 @@ ENGINES = {
     "C06": ("eng_c06", "run"),
     "C07": ("eng_nv", "run"),
     "C09": ("eng_c09", "run"),
+    "C10": ("eng_c10", "run"),
     "C12": ("eng_epr", "run"),
     "C13": ("eng_ctrl", "run"),
     "C14": ("eng_c14", "run"),
